@@ -51,6 +51,8 @@ pub fn gen(rng: &mut Rng) -> Scn {
     let min = rng.range(1, 2) as u32;
     let max = min + rng.range(0, 3) as u32;
     let initial = rng.range(min as u64, max as u64) as u32;
+    // u32::MAX stands for usize::MAX: "no upper bound", starting wide open
+    let (initial, max) = if rng.chance(1, 12) { (if rng.chance(1, 2) { u32::MAX } else { initial }, u32::MAX) } else { (initial, max) };
     let n = rng.range(2, 10) as usize;
     let faulty = rng.chance(2, 3);
     let two = rng.chance(1, 3);
@@ -84,9 +86,10 @@ pub fn gen(rng: &mut Rng) -> Scn {
 pub fn valid(s: &Scn) -> bool {
     s.min >= 1
         && s.min <= s.max
-        && s.max <= 8
+        && (s.max <= 8 || s.max == u32::MAX)
         && s.initial >= s.min
         && s.initial <= s.max
+        && (s.initial <= 8 || s.initial == u32::MAX)
         && s.increase >= 1
         && s.increase <= 4
         && s.factor_eighths <= 8
@@ -121,13 +124,13 @@ pub fn run(s: &Scn, ctx: &mut RunCtx) -> RunOutput {
             }
         });
         let alg = if scn.vegas {
-            Algorithm::Vegas(Vegas::builder().initial_limit(scn.initial as usize).min_limit(scn.min as usize).max_limit(scn.max as usize).alpha(scn.alpha as usize).beta(scn.beta as usize).build())
+            Algorithm::Vegas(Vegas::builder().initial_limit(count(scn.initial)).min_limit(scn.min as usize).max_limit(count(scn.max)).alpha(scn.alpha as usize).beta(scn.beta as usize).build())
         } else {
             Algorithm::Aimd(
                 Aimd::builder()
-                    .initial_limit(scn.initial as usize)
+                    .initial_limit(count(scn.initial))
                     .min_limit(scn.min as usize)
-                    .max_limit(scn.max as usize)
+                    .max_limit(count(scn.max))
                     .increase_by(scn.increase as usize)
                     .decrease_factor(scn.factor_eighths as f64 / 8.0)
                     .latency_threshold(Duration::from_millis(scn.lat_threshold_ms))
@@ -135,8 +138,9 @@ pub fn run(s: &Scn, ctx: &mut RunCtx) -> RunOutput {
             )
         };
         let layer = AdaptiveLimiterLayer::new(alg);
-        let base: Svc = layer.layer(SimInner::new(0));
-        let base_b: Svc = layer.layer(SimInner::new(1));
+        let Some((base, base_b)): Option<(Svc, Svc)> = build_guarded("C13.ready_iff_capacity", &format!("an adaptive limiter with initial_limit={} max_limit={}", count(scn.initial), count(scn.max)), || (layer.layer(SimInner::new(0)), layer.layer(SimInner::new(1)))) else {
+            return vec![];
+        };
         *h2.borrow_mut() = Some((base.clone(), base_b.clone()));
         let mut defs = vec![];
         for i in 0..=n {
@@ -153,7 +157,7 @@ pub fn run(s: &Scn, ctx: &mut RunCtx) -> RunOutput {
                     for round in 0..2 {
                         r = std::future::poll_fn(|cx| {
                             let true_inflight = world::with(|w| w.in_flight[via as usize]);
-                            let limit = svc.limit() as i64;
+                            let limit = i64::try_from(svc.limit()).unwrap_or(i64::MAX);
                             let r = svc.poll_ready(cx);
                             world::note(if r.is_pending() { "ready_pending" } else { "ready_ok" }, true_inflight, limit);
                             r
@@ -189,7 +193,7 @@ pub fn run(s: &Scn, ctx: &mut RunCtx) -> RunOutput {
         }
         defs
     };
-    let (min, max) = (s.min as usize, s.max as usize);
+    let (min, max) = (s.min as usize, count(s.max));
     let mut step = |_k| {
         if let Some((ha, hb)) = handle.borrow().as_ref() {
             for (k, h) in [ha, hb].iter().enumerate() {
